@@ -74,7 +74,7 @@ impl Finding {
     if !self.directions.is_empty() {
       if let Some((dir, tags)) = sig.split_once(':') {
         let tags: Vec<&str> = tags.split(',').collect();
-        return self.directions.iter().any(|d| d == dir)
+        return self.directions.iter().any(|d| d == dir || (d.ends_with('*') && dir.starts_with(&d[..d.len() - 1])))
           && self.all_of.iter().all(|t| tags.contains(&t.as_str()))
           && (self.any_of.is_empty() || self.any_of.iter().any(|t| tags.contains(&t.as_str())))
           && !self.none_of.iter().any(|t| tags.contains(&t.as_str()));
